@@ -32,6 +32,7 @@ fix = Function('fix', SetS, Sq, I, I)    # index map of filt into s
 fjx = Function('fjx', SetS, Sq, I, I)    # inverse of the index map
 addall = Function('addall', Sq, Sq, Sq)  # s ++ first occurrences of members of t not already present
 cnt = Function('cnt', Sq, V, I)          # number of occurrences
+srem = Function('srem', Sq, V, Sq)        # s without the first occurrence of x (List.erase)
 flat = Function('flat', Sq, Sq)           # concatenation of a sequence of (boxed) sequences
 smap = Function('smap', MapS, Sq, Sq)     # [M[x] for x in s]
 seqeq = Function('seqeq', Sq, Sq, B)     # sequence equality: as a hypothesis it yields term equality (sequences are extensional),
@@ -128,6 +129,12 @@ def axioms():
     A('slc_mem', ForAll([s, a, b, y], Implies(And(0 <= a, a <= b, b <= slen(s), mem(slc(s, a, b), y)), mem(s, y)), patterns=[mem(slc(s, a, b), y)]))
     A('slc_full', ForAll([s], slc(s, 0, slen(s)) == s, patterns=[slc(s, 0, slen(s))]))
     A('slc_nil', ForAll([s, a], slc(s, a, a) == sempty, patterns=[slc(s, a, a)]))
+    # srem: definition by position, plus the derived facts the solver would otherwise re-derive through pos/slc (lemmas/Remove.lean)
+    A('srem_def', ForAll([s, x], Implies(mem(s, x), srem(s, x) == cat(slc(s, 0, pos(s, x)), slc(s, pos(s, x) + 1, slen(s)))), patterns=[srem(s, x)]))
+    A('srem_mem_ne', ForAll([s, x, y], Implies(y != x, mem(srem(s, x), y) == mem(s, y)), patterns=[mem(srem(s, x), y), MultiPattern(srem(s, x), mem(s, y))]))
+    A('srem_mem_self', ForAll([s, x], Implies(nodup(s), Not(mem(srem(s, x), x))), patterns=[srem(s, x)]))
+    A('srem_len', ForAll([s, x], Implies(mem(s, x), slen(srem(s, x)) == slen(s) - 1), patterns=[srem(s, x)]))
+    A('srem_nodup', ForAll([s, x], Implies(nodup(s), nodup(srem(s, x))), patterns=[srem(s, x)]))
     # upd
     A('upd_len', ForAll([s, i, x], slen(upd(s, i, x)) == slen(s), patterns=[upd(s, i, x)]))
     A('upd_at', ForAll([s, i, x, j], Implies(And(0 <= j, j < slen(s)), at(upd(s, i, x), j) == If(j == i, x, at(s, j))),
